@@ -78,7 +78,7 @@ CHECKS = {
  "C19": dict(
    technique="TLA+ ArcApprox: structural conversion contract on abstract paths (Connected, CountRight, EndsKept invariants) + concrete arc table enumerated by TLC; realised through as_cubic_curves/as_quad_curves/approximate_arcs_with_* and measured with the distance-to-ellipse comparator",
    text="27 abstract paths (line / arc / zero-extent arc at 3 positions) x slice counts x 4 APIs: chain ends exactly at the arc's ends, joins exact, neighbours untouched, path connected, zero-extent arcs vanish; arc table (radii ratio 1..100, rotations, start angles, extents 0.02 rad .. exactly one turn .. 450 degrees, both directions) x position in a path x {default, 2x, 4x, n=1, error=0.02} x {cubic, quadratic}: joints on the ellipse, deviation <= 1e-3 / 1e-2 x larger radius at both defaults, non-increasing for finer subdivision.",
-   note="Trusted: TLC, ArcApprox.tla, the Newton distance-to-ellipse comparator; the deviation is sampled at 33 points per curve, not bounded analytically.",
+   note="Trusted: TLC, ArcApprox.tla, the Newton distance-to-ellipse comparator; the deviation is sampled at 13 (quick) or 33 (thorough) points per curve, not bounded analytically.",
    design="5/C19"),
  "C15": dict(
    technique="TLA+ ArcLen (rational total variation of collinear Beziers, Pythagorean polylines, quarter-turn circles as multiples of pi, Walk(t) by cumulative length fractions, query/edit history machine) enumerated by TLC; replayed into length()/point(); invariance laws evaluated on MC_C02's segment table",
